@@ -141,10 +141,10 @@ func kernelStart(prop, tier string) {
 // child between fork and exec briefly holds a copy of every descriptor of this process (a just-closed SACK listener
 // stays bound for that moment, the open-descriptor count of C10's leak monitor moves), so the labs start only after
 // every simulated case has finished, then run concurrently with each other.
-func withKernelStage(prop, tier string, sim []fw.Case) []fw.Case {
+func withKernelStage(prop, tier string, sim []fw.Case, late ...fw.Case) []fw.Case {
 	if *fw.FlagCase != "" {
 		_, kc := kernelCases(prop, tier, nil)
-		return append(sim, kc...)
+		return append(append(sim, late...), kc...)
 	}
 	// (an atomic counter, not a WaitGroup: most simulated cases run inside synctest bubbles)
 	pending := &atomic.Int64{}
@@ -157,7 +157,17 @@ func withKernelStage(prop, tier string, sim []fw.Case) []fw.Case {
 		}
 	}
 	st, kc := kernelCases(prop, tier, pending)
-	return append(append(sim, st), kc...)
+	// late cases: other cases that start child processes; they, too, wait for the simulated cases
+	for i := range late {
+		orig := late[i].Run
+		late[i].Run = func(c *fw.Ctx) {
+			for pending.Load() > 0 {
+				time.Sleep(5 * time.Millisecond)
+			}
+			orig(c)
+		}
+	}
+	return append(append(append(sim, st), late...), kc...)
 }
 
 // kernelCases: a starter plus one collecting case per configuration.
